@@ -754,6 +754,65 @@ theorem remove_truthful (gs : List String) (g : String) (unstopped : Bool) (faul
         (removeGroup gs g unstopped fault).res ≠ some (.ret true)) :=
   okRem_sound gs g fault unstopped _ .untouched _ remove_order_ok rfl
 
+/-- **whatever the RPC method answers, the notifications are truthful**: `addProcessGroup` answers True exactly when
+    `add_process_group` returned True, and then exactly one PROCESS_GROUP_ADDED was raised for a group that is now in the
+    table; for every other answer -- a fault (ALREADY_ADDED, or the fault the method raises for an exception class it
+    catches around the call: regenerated table `rpcAddCaught`) or an exception that escapes -- either nothing was announced
+    and the table is unchanged, or the addition was done and announced once.  For every exception class. -/
+theorem rpc_add_truthful (gs : List String) (g : String) (fault : Option String) (cls : String) :
+    ((rpcAdd gs g fault cls).2 = .ok →
+      (rpcAdd gs g fault cls).1.notes = [⟨"ProcessGroupAddedEvent", g, true⟩] ∧ g ∉ gs ∧ (rpcAdd gs g fault cls).1.groups = gs ++ [g]) ∧
+    (((rpcAdd gs g fault cls).1.notes = [⟨"ProcessGroupAddedEvent", g, true⟩] ∧ (rpcAdd gs g fault cls).1.groups = gs ++ [g]) ∨
+     ((rpcAdd gs g fault cls).1.notes = [] ∧ (rpcAdd gs g fault cls).1.groups = gs)) := by
+  have h := add_truthful gs g fault
+  have hok : (rpcAdd gs g fault cls).2 = .ok → (addGroup gs g fault).res = some (.ret true) := by
+    intro ha
+    simp only [rpcAdd] at ha
+    cases hr : (addGroup gs g fault).res with
+    | none => rw [hr] at ha; simp [answerOf] at ha
+    | some r =>
+      cases r with
+      | ret b => cases b <;> simp_all [answerOf]
+      | raised w => rw [hr] at ha; simp only [answerOf] at ha; split at ha <;> simp at ha
+  refine ⟨?_, ?_⟩
+  · intro ha
+    rcases h with h | h
+    · exact ⟨h.1, h.2.1, h.2.2.1⟩
+    · exact absurd (hok ha) h.2.2
+  · rcases h with h | h
+    · left; exact ⟨h.1, h.2.2.1⟩
+    · right; exact ⟨h.1, h.2.1⟩
+
+theorem rpc_remove_truthful (gs : List String) (g : String) (u : Bool) (fault : Option String) (cls : String) :
+    ((rpcRemove gs g u fault cls).2 = .ok →
+      (rpcRemove gs g u fault cls).1.notes = [⟨"ProcessGroupRemovedEvent", g, false⟩] ∧ g ∈ gs ∧
+      (rpcRemove gs g u fault cls).1.groups = gs.filter (· ≠ g)) ∧
+    (((rpcRemove gs g u fault cls).1.notes = [⟨"ProcessGroupRemovedEvent", g, false⟩] ∧ (rpcRemove gs g u fault cls).1.groups = gs.filter (· ≠ g)) ∨
+     ((rpcRemove gs g u fault cls).1.notes = [] ∧ (rpcRemove gs g u fault cls).1.groups = gs)) := by
+  have h := remove_truthful gs g u fault
+  have hok : (rpcRemove gs g u fault cls).2 = .ok → (removeGroup gs g u fault).res = some (.ret true) := by
+    intro ha
+    simp only [rpcRemove] at ha
+    cases hr : (removeGroup gs g u fault).res with
+    | none => rw [hr] at ha; simp [answerOf] at ha
+    | some r =>
+      cases r with
+      | ret b => cases b <;> simp_all [answerOf]
+      | raised w => rw [hr] at ha; simp only [answerOf] at ha; split at ha <;> simp at ha
+  refine ⟨?_, ?_⟩
+  · intro ha
+    rcases h with h | h
+    · exact ⟨h.1, h.2.1, h.2.2.1⟩
+    · exact absurd (hok ha) h.2.2
+  · rcases h with h | h
+    · left; exact ⟨h.1, h.2.2.1⟩
+    · right; exact ⟨h.1, h.2.1⟩
+
+-- a ValueError out of make_group is answered as the fault the method raises for it; another class escapes; nothing is announced either way
+example : (match (rpcAdd ["a"] "b" (some "make_group") "ValueError").2 with | .fault _ => true | _ => false) = true ∧
+    (rpcAdd ["a"] "b" (some "make_group") "ValueError").1.notes = [] := by decide
+example : (rpcAdd ["a"] "b" (some "make_group") "RuntimeError").2 = .escaped "make_group" ∧ (rpcAdd ["a"] "b" (some "make_group") "RuntimeError").1.groups = ["a"] := by decide
+
 /-- the successful cases are reachable: an addition without fault and a removal of a stopped group -/
 example : (addGroup ["a"] "b" none).notes = [⟨"ProcessGroupAddedEvent", "b", true⟩] ∧ (addGroup ["a"] "b" none).res = some (.ret true) := by decide
 example : (addGroup ["a"] "b" (some "make_group")).notes = [] ∧ (addGroup ["a"] "b" (some "make_group")).groups = ["a"] := by decide
